@@ -122,6 +122,11 @@ def group_runs(g, tier):
         ]
     if g == 'hostile':
         return [dict(kind='hostile', cfgs='alt(zr,mem);alt(zr/zs,phys);alt(zr,alt(zs,mem));alt(zr/zs/zt,ovl(mem,mem));phys;alt(zr,phys);alt(zr,ovl(phys,mem))', sample=150 if q else 5000, tspec='Trace_Confine')]
+    if g == 'lockstep':
+        k = 1 if q else 25
+        return [W('lock(mem|phys)', 'random', walks=40 * k, length=40), W('lock(mem|phys)', 'random', names='dotted', b=3, walks=15 * k, length=40),
+                W('lock(mem|phys)', 'random', names='multi', b=8193, walks=6 * k, length=30), W('lock(mem|phys)', 'edges', frac=0.02 if q else 1.0),
+                W('lock(mem|phys)', 'edges', lts='deep', names='prefix', frac=0.05 if q else 1.0), W('lock(phys|mem)', 'random', walks=10 * k, length=40)]
     if g == 'hostiledir':
         return [dict(kind='hostiledir', cfgs='phys;alt(zr,phys);ovl(phys,mem);ovl(mem,phys);alt(zr/zs,ovl(phys,phys))', tspec='Trace_Confine')]
     if g == 'times':
@@ -377,7 +382,7 @@ def run_group(g, tier, seed, use_cache=True):
 LEVEL = 'model_checking'
 PROPS = {
     'C01': dict(groups=['tree', 'alt', 'ovl']),
-    'C02': dict(groups=['tree', 'handles']),
+    'C02': dict(groups=['lockstep', 'tree', 'handles']),
     'C03': dict(groups=['tree', 'alt', 'ovl', 'handles', 'xfer']),
     'C05': dict(groups=['tree', 'alt', 'ovl']),
     'C12': dict(groups=['tree', 'alt', 'ovl', 'join', 'faults']),
@@ -511,7 +516,7 @@ MANIFEST_TEXT = {
                 technique='TLA+ exhaustive enumeration of join arguments (MC_Join) + TLC trace validation (Trace_Join)', ref='DESIGN.md 6 C06'),
     'C01': dict(level=_LVL + 'Conjuncts class/value/effect: outcome class in the allowed set and the full observation equals the tree Level A prescribes, after every call.',
                 note=_NOTE, technique='TLA+ Level-A model checking + LTS replay + TLC trace validation', ref='DESIGN.md 6 C01'),
-    'C02': dict(level=_LVL + 'MemoryFS and PhysicalFS are both judged by the same deterministic Level A on the same LTS edges (and by the same cursor machines on the handle LTS), so agreement follows on the specified regime.',
+    'C02': dict(level=_LVL + 'MemoryFS and PhysicalFS are both judged by the same deterministic Level A on the same LTS edges (and by the same cursor machines on the handle LTS), so agreement follows on the specified regime; in addition lock-step runs execute every call on MemoryFS and PhysicalFS side by side and TLC (conjunct agree) compares success/failure, the pinned classes and the complete observation of both, also where Level A leaves the outcome open (failed composites).',
                 note=_NOTE, technique='TLA+ Level-A model checking + LTS replay on mem and phys + TLC trace validation', ref='DESIGN.md 6 C02'),
     'C03': dict(level=_LVL + 'Conjunct wellformed is evaluated by TLC on the observed record of every event over the unrestricted operation domain.',
                 note=_NOTE, technique='TLA+ invariant WellFormed (model) + WellFormedObs on every trace event', ref='DESIGN.md 6 C03'),
